@@ -90,6 +90,13 @@ pub const ADV: &[PoolName] = &[
     pn("中", "non-ascii"),
     pn("_", "degenerate"),
     pn("__", "degenerate"),
+    pn("_-", "degenerate"),
+    // mixed one-byte and multi-byte characters: a character straddles byte offset 6
+    pn("pr\u{e9}f\u{e9}rence", "non-ascii-mixed"),
+    pn("x\u{418}\u{43c}\u{44f}", "non-ascii-mixed"),
+    // lower case followed by a run of capitals
+    pn("customerID", "acronym"),
+    pn("HTMLBody", "acronym"),
 ];
 
 pub fn pool(exclude_categories: &[&str]) -> Vec<PoolName> {
